@@ -28,6 +28,7 @@
   compares table counts; the property claims equality for `clone()` only.)
 -/
 import BroodModel.Lemmas.CloneFrom
+import BroodModel.Lemmas.AllocAbs
 
 namespace Brood
 
@@ -113,6 +114,17 @@ example :
      | _, _ => (none, none, 0, 0)) =
     (some [⟨0, 5 + 1048576⟩], some [⟨0, 6 + 1048576⟩, ⟨2, 7 + 1048576⟩], 2, 3) := by decide
 
+/-- **A clone and its original keep issuing the same identifiers**: fed the same operations (any
+history, `clear` in whatever table order each world has), both are handed the same identifiers —
+the identifiers issued depend on the allocator abstraction only, which `clone` copies. -/
+theorem C10_clone_lockstep {w : World} (hi : Inv w) (e next : Nat) (opsa opsb : List Op)
+    (hops : opsa.map Op.forget = opsb.map Op.forget) :
+    ∃ w', w.clone e next = .ok w' ∧
+      ∀ {a b : World} {ia ib : List Ident}, runIssued w opsa = .ok (a, ia) → runIssued w' opsb = .ok (b, ib) →
+        ia = ib ∧ a.alloc.abs = b.alloc.abs := by
+  obtain ⟨w', h1, h2, _, _, _, _, h7⟩ := clone_spec hi e next
+  exact ⟨w', h1, fun ra rb => lockstep_run opsa opsb hops hi h2 (eqWorld_abs hi h2 h7) ra rb⟩
+
 end Brood
 
 #print axioms Brood.C10_clone
@@ -121,3 +133,4 @@ end Brood
 #print axioms Brood.C10_clone_keeps_working
 #print axioms Brood.C10_clone_from
 #print axioms Brood.C10_clone_from_keeps_working
+#print axioms Brood.C10_clone_lockstep
